@@ -131,19 +131,32 @@ Theorem C01_unmatched_passes :
 Proof. exact nothing_matches_passes. Qed.
 Print Assumptions C01_unmatched_passes.
 
-(** ... and is forwarded exactly once with its own name and type, the answer
-    carries the client's question; an upstream failure gives SERVFAIL; an
-    allow-listed query gets the upstream answer exactly as it came (for the
-    unmatched case see C02_clean_answer_unchanged). *)
+(** ... and is forwarded exactly once with its own name and type; the answer
+    carries the client's question when it is the blocking-mode answer and the
+    question the upstream put into its answer otherwise (round 6: the code
+    does not touch it; [resp_qname]: the client's up to ASCII case, see
+    C01_upstream_question_is_clients_up_to_case); an upstream failure gives
+    SERVFAIL; an allow-listed query gets the upstream answer exactly as it
+    came (for the unmatched case see C02_clean_answer_unchanged). *)
 Theorem C01_forwarded_once :
   forall allow_eng block_eng sb par ss srt c up q res,
   passes_request_stage allow_eng block_eng sb par ss srt c q res ->
   o_calls (process allow_eng block_eng sb par ss srt c up q) = [the_call q] /\
-  o_qname (process allow_eng block_eng sb par ss srt c up q) = q_name q /\
+  o_qname (process allow_eng block_eng sb par ss srt c up q) =
+    match up (q_name q) (q_qtype q) with
+    | Some r => if o_orig_kept (process allow_eng block_eng sb par ss srt c up q)
+                then q_name q else resp_qname r (q_name q)
+    | None => q_name q
+    end /\
   (up (q_name q) (q_qtype q) = None ->
    o_resp (process allow_eng block_eng sb par ss srt c up q) = Some servfail).
 Proof. exact forwarded_once. Qed.
 Print Assumptions C01_forwarded_once.
+
+Theorem C01_upstream_question_is_clients_up_to_case :
+  forall r n, lower (resp_qname r n) = lower n.
+Proof. exact resp_qname_fold. Qed.
+Print Assumptions C01_upstream_question_is_clients_up_to_case.
 
 Theorem C01_forwarded_intact :
   forall allow_eng block_eng sb par ss srt c up q res r,
@@ -152,7 +165,7 @@ Theorem C01_forwarded_intact :
   up (q_name q) (q_qtype q) = Some r ->
   o_resp (process allow_eng block_eng sb par ss srt c up q) = Some r /\
   o_result (process allow_eng block_eng sb par ss srt c up q) = res /\
-  o_qname (process allow_eng block_eng sb par ss srt c up q) = q_name q.
+  o_qname (process allow_eng block_eng sb par ss srt c up q) = resp_qname r (q_name q).
 Proof. exact allowlisted_intact. Qed.
 Print Assumptions C01_forwarded_intact.
 
